@@ -654,6 +654,18 @@ func segFor(rng interface{ Intn(int) int }, kind, n int, bounds []int) Seg {
 				s.Pauses = append(s.Pauses, rng.Intn(2))
 			}
 		}
+	case 5:
+		// long pauses: inside the first frame and after every frame
+		if len(bounds) > 0 && bounds[0] > 2 {
+			s.Cuts = append(s.Cuts, bounds[0]/2)
+			s.Pauses = append(s.Pauses, 400000)
+		}
+		for _, b := range bounds {
+			if b > 0 && b < n {
+				s.Cuts = append(s.Cuts, b)
+				s.Pauses = append(s.Pauses, 400000)
+			}
+		}
 	case 4:
 		for _, b := range []int{4095, 4096, 4097, 8191, 8192, 8193} {
 			if b < n {
